@@ -65,6 +65,7 @@ class Aggregator:
                 self.c['fault:argument_container_recycled_at_same_address'] += s.get('recycled', 0)
                 self.c['start:' + s['conf']['start']] += 1
                 self.c['mix:' + s['conf']['mix']] += 1
+                self.c['scenario:' + s['conf'].get('scenario', 'random')] += 1
                 self.c['batch:fault_injecting' if s['conf']['faults'] else 'batch:fault_free'] += 1
                 if s.get('state'):
                     self.states.add(s['state'])
